@@ -255,12 +255,12 @@ Section GalerkinTheorems.
   Definition consistent_mass (D kt a dT : R) (j k : nat) : R :=
     D * kt * a / 12 * (if Nat.eqb j k then 2 else 1) / dT.
 
-  Theorem lumped_is_rowsum (D kt a dT : R) j : dT <> 0 ->
+  Theorem lumped_is_rowsum (D kt a dT : R) j : (j < 3)%nat -> dT <> 0 ->
     consistent_mass D kt a dT j 0 + consistent_mass D kt a dT j 1 + consistent_mass D kt a dT j 2
     = D * kt * a / (3 * dT).
   Proof.
-    intros HdT. unfold consistent_mass.
-    destruct j as [|[|[|j]]]; cbn [Nat.eqb]; field; exact HdT.
+    intros Hj HdT. unfold consistent_mass.
+    destruct j as [|[|[|j]]]; try lia; simpl; field; exact HdT.
   Qed.
 
   Theorem lumped_transient_term D0 k0 pows el :
@@ -282,15 +282,287 @@ Section GalerkinTheorems.
     { unfold lump_K, transient_K. destruct (Reqb (hdT P) 0) eqn:E; [apply Reqb_true in E; contradiction|].
       fold blk. fold a. unfold K. ra_simpl. field. exact HdT. }
     split; [exact EK|]. split.
-    - intros j Hj. rewrite lumped_is_rowsum by exact HdT. reflexivity.
+    - intros j Hj. rewrite lumped_is_rowsum by assumption. reflexivity.
     - intros j Hj.
       destruct (helem_matrices_noedge P Vo extRo extRi extZo D0 k0 pows el He) as (_ & _ & _ & _ & _ & HB).
       unfold r. rewrite (HB j Hj). fold D. rewrite EK. reflexivity.
   Qed.
 
   (* on a spatially constant field the lumped and the consistent capacity matrices agree *)
-  Theorem lumped_agrees_on_constants (D kt a dT c : R) j : dT <> 0 ->
+  Theorem lumped_agrees_on_constants (D kt a dT c : R) j : (j < 3)%nat -> dT <> 0 ->
     consistent_mass D kt a dT j 0 * c + consistent_mass D kt a dT j 1 * c + consistent_mass D kt a dT j 2 * c
     = D * kt * a / (3 * dT) * c.
-  Proof. intros H. rewrite <- (lumped_is_rowsum D kt a dT j H). ring. Qed.
+  Proof. intros Hj H. rewrite <- (lumped_is_rowsum D kt a dT j Hj H). ring. Qed.
 End GalerkinTheorems.
+
+Section Edges.
+  Local Notation vgetR := (vget RA).
+  Variables (P : hprob (F:=R)) (Vo : vecT R).
+
+  (* Tlast=(Vo[n[j]]+Vo[n[k]])/2. *)
+  Definition edge_Tlast (el : eelem) (j : nat) : R :=
+    (vgetR Vo (tri_get (ep el) j) + vgetR Vo (tri_get (ep el) (nxt j))) / 2.
+
+  (* the boundary law of an edge, k dT/dn + c0*T + c1 = 0, by boundary type *)
+  Definition edge_coeffs (lp : hline (F:=R)) (Tlast : R) : option (R * R) :=
+    match hfmt lp with
+    | 1%nat => Some (0, hqs lp)
+    | 2%nat => Some (hh lp, - hh lp * hTinf lp)
+    | 3%nat => Some (4 * hbeta lp * ksb RA * pow3 RA Tlast,
+                     - (hbeta lp * ksb RA * (pow4 RA (hTinf lp) + 3 * pow4 RA Tlast)))
+    | _ => None
+    end.
+
+  (* what one boundary edge j (from local node j to k = j+1 mod 3) adds to Me[a][b] and be[a] *)
+  Definition edge_Me (axi : bool) (D c0 l xj xk : R) (j a b : nat) : R :=
+    let k := nxt j in
+    if axi then
+      let K := - 2 * PI * c0 * l / 6 in
+      if (Nat.eqb a j && Nat.eqb b j)%bool then K * 2 * (3 * xj + xk) / 4
+      else if (Nat.eqb a k && Nat.eqb b k)%bool then K * 2 * (xj + 3 * xk) / 4
+      else if ((Nat.eqb a j && Nat.eqb b k) || (Nat.eqb a k && Nat.eqb b j))%bool then K * (xj + xk) / 2
+      else 0
+    else
+      let K := - D * c0 * l / 6 in
+      if ((Nat.eqb a j && Nat.eqb b j) || (Nat.eqb a k && Nat.eqb b k))%bool then K * 2
+      else if ((Nat.eqb a j && Nat.eqb b k) || (Nat.eqb a k && Nat.eqb b j))%bool then K
+      else 0.
+  Definition edge_be (axi : bool) (D c1 l xj xk : R) (j a : nat) : R :=
+    let k := nxt j in
+    if axi then
+      let K := 2 * PI * c1 * l / 2 in
+      if Nat.eqb a j then K * (2 * xj + xk) / 3 else if Nat.eqb a k then K * (xj + 2 * xk) / 3 else 0
+    else
+      let K := D * c1 * l / 2 in
+      if (Nat.eqb a j || Nat.eqb a k)%bool then K else 0.
+
+  Lemma hedge_step_spec xs g el D m0 m1 m2 m3 m4 m5 m6 m7 m8 b0 b1 b2 rad j e c0 c1 :
+    (j < 3)%nat -> tri_get (ee el) j = Some e ->
+    edge_coeffs (nth e (hlines P) (dhline RA)) (edge_Tlast el j) = Some (c0, c1) ->
+    let Me := [m0; m1; m2; m3; m4; m5; m6; m7; m8] in
+    let be := [b0; b1; b2] in
+    let r := hedge_step RA P Vo xs g el (D, Me, be, [], rad) j in
+    let xj := vgetR xs j in
+    let xk := vgetR xs (nxt j) in
+    let D' := if haxi P then PI * (xj + xk) else D in
+    let l := vgetR (gl g) j in
+    fst (fst (fst (fst r))) = D' /\
+    (forall a b, (a < 3)%nat -> (b < 3)%nat ->
+       m3get RA (es_Me r) a b = m3get RA Me a b + edge_Me (haxi P) D' c0 l xj xk j a b) /\
+    (forall a, (a < 3)%nat -> vgetR (es_be r) a = vgetR be a + edge_be (haxi P) D' c1 l xj xk j a).
+  Proof.
+    intros Hj He Hc Me be r xj xk D' l.
+    unfold r, hedge_step, es_Me, es_be. rewrite He.
+    unfold edge_coeffs in Hc. unfold edge_Tlast in Hc.
+    fold xj xk l.
+    destruct (hfmt (nth e (hlines P) (dhline RA))) as [|[|[|[|bf]]]]; try discriminate Hc;
+      injection Hc as <- <-; cbn [Nat.eqb orb]; unfold D', edge_Me, edge_be;
+      destruct (haxi P); cbn [fst snd];
+      (split; [reflexivity|]);
+      destruct j as [|[|[|j]]]; try lia; cbn [nxt]; subst Me be;
+      (split; [intros a b Ha Hb; destruct a as [|[|[|a]]]; try lia; destruct b as [|[|[|b]]]; try lia
+              |intros a Ha; destruct a as [|[|[|a]]]; try lia]);
+      cbn; ra_simpl; lra.
+  Qed.
+
+  (* the laws: heat flux, convection, radiation *)
+  Theorem flux_law lp T c0 c1 : hfmt lp = 1%nat -> edge_coeffs lp T = Some (c0, c1) ->
+    c0 * T + c1 = hqs lp.
+  Proof. unfold edge_coeffs. intros ->. intros [= <- <-]. ring. Qed.
+
+  Theorem convection_law lp T c0 c1 : hfmt lp = 2%nat -> edge_coeffs lp T = Some (c0, c1) ->
+    c0 * T + c1 = hh lp * (T - hTinf lp).
+  Proof. unfold edge_coeffs. intros ->. intros [= <- <-]. ring. Qed.
+
+  (* (d) the radiation linearisation is exact at the temperature it is linearised about *)
+  Theorem radiation_fixed_point lp T c0 c1 : hfmt lp = 3%nat -> edge_coeffs lp T = Some (c0, c1) ->
+    c0 * T + c1 = hbeta lp * ksb RA * (T ^ 4 - hTinf lp ^ 4).
+  Proof. unfold edge_coeffs. intros ->. intros [= <- <-]. unfold pow3, pow4. ra_simpl. ring. Qed.
+
+  (* and it is the tangent (Newton) linearisation: value and slope of beta*Ksb*(T^4-Tinf^4) at Tlast *)
+  Theorem radiation_is_tangent lp Tl T c0 c1 : hfmt lp = 3%nat -> edge_coeffs lp Tl = Some (c0, c1) ->
+    c0 * T + c1 = hbeta lp * ksb RA * (Tl ^ 4 - hTinf lp ^ 4) + 4 * hbeta lp * ksb RA * Tl ^ 3 * (T - Tl).
+  Proof. unfold edge_coeffs. intros ->. intros [= <- <-]. unfold pow3, pow4. ra_simpl. ring. Qed.
+End Edges.
+
+(* ---------------- CHMaterialProp::GetK ---------------- *)
+Section GetK.
+  Implicit Type tk : list (R * R).
+
+  (* strictly increasing temperatures *)
+  Fixpoint tk_sorted tk : Prop :=
+    match tk with
+    | (t0, _) :: (((t1, _) :: _) as rest) => t0 < t1 /\ tk_sorted rest
+    | _ => True
+    end.
+
+  Lemma tk_sorted_tail p tk : tk_sorted (p :: tk) -> tk_sorted tk.
+  Proof. destruct p as [t0 k0]. destruct tk as [|[t1 k1] tk]; simpl; tauto. Qed.
+
+  Lemma tk_sorted_lt t0 k0 : forall tk, tk_sorted ((t0, k0) :: tk) -> forall t k, In (t, k) tk -> t0 < t.
+  Proof.
+    intros tk. revert t0 k0. induction tk as [|[t1 k1] tk IH]; intros t0 k0 Hs t k Hin; [contradiction|].
+    destruct Hs as [H01 Hs]. destruct Hin as [E|Hin].
+    - injection E as <- <-. exact H01.
+    - specialize (IH t1 k1 Hs t k Hin). lra.
+  Qed.
+
+  Lemma tk_sorted_app_r pre : forall tk, tk_sorted (pre ++ tk) -> tk_sorted tk.
+  Proof. induction pre as [|p pre IH]; intros tk H; [exact H|]. apply IH. exact (tk_sorted_tail p _ H). Qed.
+
+  Lemma last_in {T} (l : list T) d : l <> [] -> In (last l d) l.
+  Proof.
+    induction l as [|x l IH]; [congruence|]. intros _. destruct l as [|y l]; [left; reflexivity|].
+    right. apply IH. discriminate.
+  Qed.
+
+  Lemma getk_no_table kx ky t : getk RA kx ky [] t = (kx, ky).
+  Proof. unfold getk, k_linear. ra_simpl. f_equal; ring. Qed.
+
+  Lemma getk_single kx ky t0 k0 t : getk RA kx ky [(t0, k0)] t = (k0, k0).
+  Proof. unfold getk, k_both. ra_simpl. f_equal; ring. Qed.
+
+  Lemma k_both_R k : k_both RA k = (k, k).
+  Proof. unfold k_both. ra_simpl. f_equal; ring. Qed.
+  Lemma k_both'_R k : k_both' RA k = (k, k).
+  Proof. unfold k_both'. ra_simpl. f_equal; ring. Qed.
+
+  (* clamping below the first knot *)
+  Theorem getk_clamp_low kx ky t0 k0 tk t : t <= t0 -> getk RA kx ky ((t0, k0) :: tk) t = (k0, k0).
+  Proof.
+    intros Ht. destruct tk as [|p tk]; [apply getk_single|].
+    unfold getk. ra_simpl. destruct (Rleb t t0) eqn:E; [apply k_both_R|].
+    apply Rleb_false in E. contradiction.
+  Qed.
+
+  (* clamping above the last knot *)
+  Theorem getk_clamp_high kx ky tk tl kl t d : tk <> [] -> tk_sorted tk -> last tk d = (tl, kl) -> tl <= t ->
+    getk RA kx ky tk t = (kl, kl).
+  Proof.
+    intros Hne Hs Hl Ht. destruct tk as [|[t0 k0] tk]; [congruence|].
+    destruct tk as [|p tk].
+    - simpl in Hl. injection Hl as <- <-. apply getk_single.
+    - assert (Hl' : last ((t0, k0) :: p :: tk) (t0, k0) = (tl, kl)).
+      { rewrite <- Hl. clear. revert p. generalize (t0, k0) at 1 3. induction tk as [|q tk IH]; intros x p; [reflexivity|].
+        change (last (x :: p :: q :: tk) (t0, k0)) with (last (p :: q :: tk) (t0, k0)).
+        change (last (x :: p :: q :: tk) d) with (last (p :: q :: tk) d). apply IH. }
+      assert (Hlt : t0 < tl).
+      { apply (tk_sorted_lt t0 k0 (p :: tk) Hs tl kl).
+        assert (E : last (p :: tk) (t0, k0) = (tl, kl)) by exact Hl'.
+        rewrite <- E. apply last_in. discriminate. }
+      unfold getk. ra_simpl. destruct (Rleb t t0) eqn:E; [apply Rleb_true in E; lra|].
+      rewrite Hl'. destruct (Rleb tl t) eqn:E2; [apply k_both_R|]. apply Rleb_false in E2. contradiction.
+  Qed.
+
+  Lemma k_interp_left ti ki tj kj : ti <> tj -> k_interp RA ti ki tj kj ti = ki.
+  Proof. intros H. unfold k_interp. ra_simpl. field. lra. Qed.
+  Lemma k_interp_right ti ki tj kj : ti <> tj -> k_interp RA ti ki tj kj tj = kj.
+  Proof. intros H. unfold k_interp. ra_simpl. field. lra. Qed.
+
+  (* the segment scan returns the interpolant of any segment that contains t *)
+  Lemma getk_scan_segment ti ki tj kj post t : ti <= t <= tj -> forall pre,
+    tk_sorted (pre ++ (ti, ki) :: (tj, kj) :: post) ->
+    getk_scan RA t (pre ++ (ti, ki) :: (tj, kj) :: post) = Some (k_interp RA ti ki tj kj t).
+  Proof.
+    intros Ht. induction pre as [|[ta ka] pre IH]; intros Hs.
+    - simpl. ra_simpl. destruct (Rleb ti t) eqn:E1; [|apply Rleb_false in E1; lra].
+      destruct (Rleb t tj) eqn:E2; [|apply Rleb_false in E2; lra]. reflexivity.
+    - pose proof (tk_sorted_tail _ _ Hs) as Hs'.
+      destruct pre as [|[tb kb] pre].
+      + (* the segment just before (ti,ki) *)
+        simpl app in *. simpl getk_scan. ra_simpl.
+        destruct (Rleb ta t && Rleb t ti)%bool eqn:E.
+        * apply andb_true_iff in E. destruct E as [E1 E2]. apply Rleb_true in E1, E2.
+          assert (t = ti) by lra. subst t.
+          destruct Hs as [Hai [Hij _]].
+          rewrite k_interp_left by lra. f_equal. unfold k_interp; ra_simpl. field. lra.
+        * specialize (IH Hs'). simpl in IH. ra_simpl. exact IH.
+      + simpl app in *. simpl getk_scan. ra_simpl.
+        destruct (Rleb ta t && Rleb t tb)%bool eqn:E.
+        * apply andb_true_iff in E. destruct E as [E1 E2]. apply Rleb_true in E1, E2.
+          (* tb < ti <= t <= tb: impossible *)
+          assert (tb < ti).
+          { apply (tk_sorted_lt tb kb (pre ++ (ti, ki) :: (tj, kj) :: post) Hs' ti ki).
+            apply in_or_app. right. left. reflexivity. }
+          lra.
+        * apply IH. exact Hs'.
+  Qed.
+
+  (* (f) on every segment of a strictly increasing table the conductivity is the linear
+     interpolant of the two knots, both components *)
+  Theorem getk_on_segment kx ky pre ti ki tj kj post t :
+    tk_sorted (pre ++ (ti, ki) :: (tj, kj) :: post) -> ti <= t <= tj ->
+    let v := k_interp RA ti ki tj kj t in
+    getk RA kx ky (pre ++ (ti, ki) :: (tj, kj) :: post) t = (v, v).
+  Proof.
+    intros Hs Ht v.
+    set (tk := pre ++ (ti, ki) :: (tj, kj) :: post) in *.
+    assert (Hij : ti < tj) by (destruct (tk_sorted_app_r pre _ Hs) as [H _]; exact H).
+    destruct tk as [|[t0 k0] tk'] eqn:Etk; [destruct pre; discriminate|].
+    destruct tk' as [|p tk'']; [destruct pre as [|? [|? ?]]; discriminate|].
+    unfold getk. ra_simpl.
+    destruct (Rleb t t0) eqn:E0.
+    { (* t <= t0: then t = t0 = ti and the segment is the first one *)
+      apply Rleb_true in E0. rewrite k_both_R.
+      destruct pre as [|[ta ka] pre].
+      - simpl in Etk. injection Etk as -> -> _. assert (t = ti) by lra. subst t.
+        unfold v. rewrite k_interp_left by lra. reflexivity.
+      - simpl in Etk. injection Etk as -> -> Etk'.
+        assert (t0 < ti).
+        { apply (tk_sorted_lt t0 k0 (p :: tk'') Hs ti ki). rewrite <- Etk'.
+          apply in_or_app. right. left. reflexivity. }
+        lra. }
+    apply Rleb_false in E0.
+    destruct (last ((t0, k0) :: p :: tk'') (t0, k0)) as [tl kl] eqn:El.
+    destruct (Rleb tl t) eqn:E1.
+    { (* tl <= t: then t = tj = tl and the segment is the last one *)
+      apply Rleb_true in E1. rewrite k_both_R.
+      assert (Hin : In (tl, kl) ((t0, k0) :: p :: tk'')) by (rewrite <- El; apply last_in; discriminate).
+      destruct post as [|[tm km] post].
+      - assert (El' : last (pre ++ [(ti, ki); (tj, kj)]) (t0, k0) = (tj, kj)).
+        { clear. induction pre as [|x pre IH]; [reflexivity|].
+          destruct pre as [|y pre]; [reflexivity|]. exact IH. }
+        rewrite <- Etk in El. rewrite El' in El. injection El as <- <-.
+        assert (t = tj) by lra. subst t. unfold v. rewrite k_interp_right by lra. reflexivity.
+      - (* tj < tl *)
+        assert (Hjl : tj <= tl).
+        { rewrite <- Etk in El.
+          assert (Hs2 : tk_sorted ((tj, kj) :: (tm, km) :: post)).
+          { apply (tk_sorted_app_r (pre ++ [(ti, ki)])). rewrite <- app_assoc. exact Hs. }
+          assert (El2 : last (pre ++ (ti, ki) :: (tj, kj) :: (tm, km) :: post) (t0, k0) = last ((tm, km) :: post) (t0, k0)).
+          { clear. induction pre as [|x pre IH]; [reflexivity|].
+            destruct pre as [|y pre]; simpl app in *; exact IH. }
+          rewrite El2 in El.
+          assert (Hin2 : In (tl, kl) ((tm, km) :: post)) by (rewrite <- El; apply last_in; discriminate).
+          pose proof (tk_sorted_lt tj kj _ Hs2 tl kl Hin2). lra. }
+        assert (Hlt : tj < tl).
+        { rewrite <- Etk in El.
+          assert (Hs2 : tk_sorted ((tj, kj) :: (tm, km) :: post)).
+          { apply (tk_sorted_app_r (pre ++ [(ti, ki)])). rewrite <- app_assoc. exact Hs. }
+          assert (El2 : last (pre ++ (ti, ki) :: (tj, kj) :: (tm, km) :: post) (t0, k0) = last ((tm, km) :: post) (t0, k0)).
+          { clear. induction pre as [|x pre IH]; [reflexivity|].
+            destruct pre as [|y pre]; simpl app in *; exact IH. }
+          rewrite El2 in El.
+          assert (Hin2 : In (tl, kl) ((tm, km) :: post)) by (rewrite <- El; apply last_in; discriminate).
+          exact (tk_sorted_lt tj kj _ Hs2 tl kl Hin2). }
+        lra. }
+    rewrite <- Etk. rewrite (getk_scan_segment ti ki tj kj post t Ht pre Hs). apply k_both'_R.
+  Qed.
+
+  (* value at the knots, and continuity there: the pieces on both sides give the knot value *)
+  Theorem getk_at_knots kx ky pre ti ki tj kj post :
+    tk_sorted (pre ++ (ti, ki) :: (tj, kj) :: post) ->
+    getk RA kx ky (pre ++ (ti, ki) :: (tj, kj) :: post) ti = (ki, ki) /\
+    getk RA kx ky (pre ++ (ti, ki) :: (tj, kj) :: post) tj = (kj, kj).
+  Proof.
+    intros Hs.
+    assert (Hij : ti < tj) by (destruct (tk_sorted_app_r pre _ Hs) as [H _]; exact H).
+    split.
+    - rewrite (getk_on_segment kx ky pre ti ki tj kj post ti Hs) by lra. rewrite k_interp_left by lra. reflexivity.
+    - rewrite (getk_on_segment kx ky pre ti ki tj kj post tj Hs) by lra. rewrite k_interp_right by lra. reflexivity.
+  Qed.
+
+  Theorem getk_pieces_agree_at_knots ti ki tj kj tm km : ti < tj -> tj < tm ->
+    k_interp RA ti ki tj kj tj = kj /\ k_interp RA tj kj tm km tj = kj.
+  Proof. intros H1 H2. split; [apply k_interp_right|apply k_interp_left]; lra. Qed.
+End GetK.
